@@ -62,43 +62,7 @@ func init() {
 	wrap("crypto/ed25519.Verify", 32)
 }
 
-// sort.Slice for slices of at most 12 elements: the real pdqsort_func falls
-// straight through to insertionSortLessFunc for length <= 12, reproduced here
-// verbatim (same sequence of less / swap calls), so the result is identical
-// even for inconsistent less functions. Longer slices are not encodable here
-// (internal/reflectlite.Swapper works on unsafe pointers).
-func init() {
-	intrinsics["sort.Slice"] = func(in *Interp, fn *ssa.Function, a []Value) Value {
-		iv, ok := a[0].(*IfaceV)
-		if !ok || iv.v == nil {
-			panic(in.unsupported("sort.Slice on a non-slice"))
-		}
-		s, ok := iv.v.(*SliceV)
-		if !ok {
-			panic(in.unsupported("sort.Slice on a non-slice"))
-		}
-		if s.obj == nil {
-			return nil
-		}
-		n := int(in.concretize(s.len, in.ob.MaxSplit, "sort.Slice length"))
-		if n > 12 {
-			panic(in.unsupported("sort.Slice on more than 12 elements"))
-		}
-		idx := func(i int) *Term { return in.ts.ConstU(64, uint64(i)) }
-		for i := 1; i < n; i++ {
-			for j := i; j > 0; j-- {
-				r := in.callValue(a[1], []Value{in.ts.ConstI(64, int64(j)), in.ts.ConstI(64, int64(j-1))})
-				if !in.branch(r.(*Term)) {
-					break
-				}
-				x, y := in.sliceElem(s, idx(j)), in.sliceElem(s, idx(j-1))
-				in.setSliceElem(s, idx(j), y)
-				in.setSliceElem(s, idx(j-1), x)
-			}
-		}
-		return nil
-	}
-}
+// (sort.Slice: see x_c26.go)
 
 // (*bc.Hash).String is proto.CompactTextString(h), which for a type with a
 // MarshalText method prints that text: the 64 lower-case hex digits of
